@@ -69,7 +69,8 @@ ASSUMPTIONS = [
 REPO = pathlib.Path(os.environ.get("SIMVERIF_REPO", "/repo"))
 QUICK_MAX_BYTES = 300_000
 # measured to parse in < 0.5 s although larger; the shipped map where fill_intersections=False changes the network
-QUICK_EXTRA = ("assets/maps/LGSVL/borregasave.xodr",)
+# (Issue189 is the only shipped map with multi-section ordinary roads that end at a junction)
+QUICK_EXTRA = ("assets/maps/LGSVL/borregasave.xodr", "assets/maps/misc/Issue189.xodr")
 HEADER = 76  # 4 version + 64 map digest + 8 options digest
 _TIER = "quick"
 _MAPS = {}
